@@ -105,7 +105,14 @@ APIS = ["sfd_abs", "sfd_rel", "sfd_empty", "sdm_abs", "sdm_slash", "sdm_rel", "s
 # does the serving model "the file the normalised path names" apply?)
 APIS2 = {"sdm_nocache": ("root", True), "sdm_timeout": ("root", True), "sdm_disallow": ("root", False),
          "sdm_file": ("root/a.txt", False), "sdm_pkg_sub": ("root/sub", True), "sdm_pkg_all": ("", True),
-         "sfd_pathlike": ("root", True), "sfd_cwd": ("root", True)}
+         "sfd_pathlike": ("root", True), "sfd_cwd": ("root", True),
+         # every base form: '' and '.' relative to the working directory (safe_join answers './<path>': the leading
+         # './' must survive later processing), '.' with _root_path, Path objects for directory / _root_path
+         "sfd_empty_cwd": ("root", True), "sfd_dot_cwd": ("root", True), "sfd_dot": ("root", True),
+         "sfd_pathdir": ("root", True), "sfd_pathdot_cwd": ("root", True), "sfd_path_rootpath": ("root", True),
+         "sfd_dotslash_cwd": ("root", True)}
+BASE_FORM_APIS = ["sfd_empty_cwd", "sfd_dot_cwd", "sfd_dot", "sfd_pathdir", "sfd_pathdot_cwd", "sfd_path_rootpath",
+                  "sfd_dotslash_cwd", "sfd_pathlike", "sfd_cwd"]
 
 
 def rootrel_of(api: str) -> str:
@@ -238,6 +245,27 @@ def serve_line(tree: Tree, api: str, raw: str) -> dict:
                         rv = send_from_directory("root", path, env)
                     finally:
                         os.chdir(cwd0)
+                elif api in ("sfd_empty_cwd", "sfd_dot_cwd", "sfd_pathdot_cwd", "sfd_dotslash_cwd"):
+                    import pathlib
+
+                    d = {"sfd_empty_cwd": "", "sfd_dot_cwd": ".", "sfd_pathdot_cwd": pathlib.Path("."),
+                         "sfd_dotslash_cwd": "./"}[api]
+                    cwd0 = os.getcwd()
+                    os.chdir(tree.root)
+                    try:
+                        rv = send_from_directory(d, path, env)
+                    finally:
+                        os.chdir(cwd0)
+                elif api == "sfd_dot":
+                    rv = send_from_directory(".", path, env, _root_path=tree.root)
+                elif api == "sfd_pathdir":
+                    import pathlib
+
+                    rv = send_from_directory(pathlib.Path(tree.root), path, env)
+                elif api == "sfd_path_rootpath":
+                    import pathlib
+
+                    rv = send_from_directory(pathlib.Path("root"), path, env, _root_path=pathlib.Path(tree.pkgdir))
                 elif api == "sfd_abs":
                     rv = send_from_directory(tree.root, path, env)
                 elif api == "sfd_rel":
@@ -427,6 +455,22 @@ UPS_PLAIN = ["..%252f", "..%255c", "..%5c", "%2e%2e%255c", "%2e%2e%5c", "..%c0%a
 HOMES_RAW = ["~", "~root", "$HOME", "$%7bHOME%7d", "%25HOME%25", "%7b%7d", "%7b0%7d", "%257e", "~%2f..", "$PWD"]
 
 
+def home_raws():
+    """home-directory / variable spellings (HOME and PWD point at the package directory while requesting, which holds
+    the sentinels secret.txt and a.txt), bare, behind './' and behind a segment that normalises away"""
+    out = []
+    for h in HOMES_RAW:
+        for tail in ("secret.txt", "a.txt", "root/../secret.txt"):
+            out.append(h + "/" + tail)
+        out.append(h)
+        out.append("sub/../" + h + "/secret.txt")
+        for lead in ("./", ".//", "././", "sub/./../", "%2e/"):
+            out.append(lead + h + "/secret.txt")
+            out.append(lead + h + "/a.txt")
+        out.append("./" + h)
+    return out
+
+
 def reinterp_raws(tree: Tree, deep: bool):
     """raw request targets (wire form).  Targets behind the spelled '..' / home: the sentinel's own basename, the
     basename of a file that also exists inside, a sentinel directory, and (deep) two levels up."""
@@ -451,11 +495,7 @@ def reinterp_raws(tree: Tree, deep: bool):
         for tail in tails:
             out.append(up + tail)
         out.append(up + up + "secret.txt")
-    for h in HOMES_RAW:                      # HOME / PWD are pointed at the package directory while requesting
-        for tail in ("secret.txt", "a.txt", "root/../secret.txt"):
-            out.append(h + "/" + tail)
-        out.append(h)
-        out.append("sub/../" + h + "/secret.txt")
+    out += home_raws()
     for s in tree.sentinel_paths()[:2]:      # an absolute sentinel path, encoded twice / with other separators
         q1 = quote(s, safe="")
         out += [quote(q1, safe=""), quote(quote(s, safe="/"), safe="/"), s.replace("/", "%255c"), s.replace("/", "%5c"),
@@ -576,3 +616,43 @@ def long_san_cases(rng: random.Random, quick: bool):
         length = rng.randrange(8, 301)
         out.append("".join(rng.choices(cl, weights)[0] for _ in range(length)))
     return [[x] for x in dict.fromkeys(out)]
+
+
+# ------------------------------------------------------------------------------- NUL-then-dotdot component grammar
+# characters at which a C-level / wide-character normpath might stop or miscount
+TRUNC_CHARS = ["\x00", "\x00\x00", "\n", "\r", "\x1a", "\x7f", "\xff", "\udc80", "\uffff", "\U00010000", "%00", "\ud800"]
+NUL_HEADS = ["", "a", "name.txt", "sub/b", ".", "a/", "..a", "a/.."]
+NUL_MIDS = ["", ".png", "x"]
+NUL_CLIMBS = ["/..", "/../..", "/../../..", "/../../../etc/passwd", "/../../outside.txt", "/../a", "/./../..", "//../..",
+              "/../../", "/..//../x"]
+
+
+def nul_components(quick: bool):
+    heads = NUL_HEADS[:5] if quick else NUL_HEADS
+    mids = NUL_MIDS[:2] if quick else NUL_MIDS
+    tcs = TRUNC_CHARS[:8] if quick else TRUNC_CHARS
+    out = []
+    for h in heads:
+        for tc in tcs:
+            for m in mids:
+                for c in NUL_CLIMBS:
+                    out.append(h + tc + m + c)
+    out += ["a\x00/../../outside.txt", "name.txt\x00.png/../../../etc/passwd", "\x00/..", "\x00/../..", "a\x00b/../../..",
+            "a/\x00/../../..", "\x00", "a\x00", "\x00/a", "..\x00", "..\x00/..", "../\x00", "\x00../..", "a\x00/..\x00/../.."]
+    return list(dict.fromkeys(out))
+
+
+def nul_join_cases(quick: bool):
+    """each component as the only, the first and a later component, for absolute / relative / empty / '.' / root bases"""
+    bases = ["/srv/root", "rel", "", ".", "/"] if quick else BASES
+    cases = []
+    for n, comp in enumerate(nul_components(quick)):
+        for k, b in enumerate(bases):
+            cases.append([b, [comp]])
+            if not quick or (n + k) % 2 == 0:
+                cases.append([b, [comp, "x"]])
+                cases.append([b, ["ok", comp]])
+            if not quick:
+                cases.append([b, ["a", "b", comp]])
+                cases.append([b, [comp, comp]])
+    return cases
